@@ -1159,6 +1159,13 @@ func wgRunOne(b *BatchResult, prop string, seed, run uint64, p wgParams) {
 			// the model under test itself was built (or rejected) just before
 			wlh.Prelude = append(wlh.Prelude, m)
 			b.Probes["histories_ending_with_the_same_model"]++
+		case 4, 5, 6:
+			// ... or a version of it that is rejected in the middle of the
+			// weight assignment, with a tuple cycle still open
+			if bad := addMidCycleFailure(r, m); bad != nil {
+				wlh.Prelude = append(wlh.Prelude, bad)
+				b.Probes["histories_ending_with_a_mid_cycle_failure"]++
+			}
 		case 2, 3:
 			// ... or a version of it that is rejected half way through a tuple
 			// to userset: one more parent type, which lacks the relation
